@@ -7,6 +7,7 @@ import MoneroModel.Props.C14
 import MoneroModel.Proofs.PanicsProofs
 import MoneroModel.Proofs.ExtraLen
 import MoneroModel.Proofs.PanicsTx
+import MoneroModel.Proofs.PanicsFmt
 open Monero Ledger
 /-! # C04 — no input can panic, hang or exhaust memory (PARTIAL: see below)
 
@@ -64,7 +65,8 @@ theorem C04_parsed_block_root_no_panic (H : Bytes → Bytes) (b : Bytes) (blk : 
     TreeHash.treeHash H minerHash blk.hashes = some (Spec.TreeHash.treeSpec H (minerHash :: blk.hashes)) :=
   C06.C06_tree_eq_spec H minerHash blk.hashes (C04_treehash_pre b blk r h)
 
-/-- the VarInt loop reads at most 10 bytes: no unbounded reading on any input -/
+/-- a VarInt that DECODES consumed between 1 and 10 bytes (on a failing input the group loop of the Rust reads on until a byte
+without continuation bit or the end of the input: bounded by the input, not by 10) -/
 theorem C04_varint_bounded (b : Bytes) (n : Nat) (r : Bytes) (h : varint b = some (n, r)) :
     1 ≤ b.length - r.length ∧ b.length - r.length ≤ 10 := by
   have hs := sound_varint b n r h
@@ -112,6 +114,15 @@ theorem C04_alloc_bound_tx (b : Bytes) :
 /-- … and for blocks (header, miner transaction, hash list) -/
 theorem C04_alloc_bound_block (b : Bytes) :
     (rblock b).val = block b ∧ (rblock b).peak ≤ 2 * CAP + Bblock * b.length := alloc_bound_block b
+/-- … and for the stand-alone transaction prefix (`deserialize::<TransactionPrefix>`): the instrumented decoder computes the
+model's result, stays within `2·CAP + 40·|b|`, and keeps nothing after a failure -/
+theorem C04_alloc_bound_prefix (b : Bytes) :
+    (rprefix b).val = prefix' b ∧ (rprefix b).peak ≤ 2 * CAP + 40 * b.length ∧ ((rprefix b).val = none → (rprefix b).live = 0) := by
+  refine ⟨rprefix_val b, ?_, bounded_rprefix.live_fail b⟩
+  have hp := bounded_rprefix.peak b
+  have hu : used b (rprefix b) ≤ b.length := by unfold used; split <;> omega
+  have := Nat.mul_le_mul_left 40 hu
+  omega
 /-- after a failed parse of a transaction or block nothing stays allocated -/
 theorem C04_alloc_released (b : Bytes) :
     ((rtx b).val = none → (rtx b).live = 0) ∧ ((rblock b).val = none → (rblock b).live = 0) :=
@@ -261,6 +272,33 @@ theorem C04_raw_from_parsed_tx_extra_no_panic (vk : Bytes → Bool) (b : Bytes) 
     show e.length ≤ CAP
     omega
   exact (C04_raw_from_parsed_extra_no_panic vk t.pre.extra hc).2
+
+
+/-! ## formatting and signed parsing of amounts -/
+open Monero.Panics in
+/-- `fmt_piconero_in` (behind `Amount::to_string_in`, `Display`, `to_string_with_denomination`, and the signed forms): for
+every value (every `u64` and beyond), sign and denomination of the REGENERATED precision table, `real.len() - nb_decimals`
+does not underflow and the three `str` slices of the zero-padded numeral are in range and on character boundaries (the
+numeral is ASCII); the text is the C15 model's -/
+theorem C04_no_panic_fmt_piconero (p : Nat) (neg : Bool) (d : Denom) :
+    (fmtPiconeroInP p neg d).isPanic = false ∧ (fmtPiconeroInP p neg d).toOption = some (AmtText.fmtPiconeroIn p neg d) := by
+  rw [fmtPiconeroInP_eq]; exact ⟨rfl, rfl⟩
+open Monero.Panics in
+/-- `SignedAmount::fmt_value_in`: for every integer — in particular `i64::MIN`, where `checked_abs` is `None` —
+`u64::MAX - (x as u64)` does not underflow and `… + 1` does not overflow a `u64` -/
+theorem C04_no_panic_signed_to_string (a : Int) (d : Denom) :
+    (signedToStringInP a d).isPanic = false ∧ (signedToStringInP a d).toOption = some (AmtText.signedToStringIn a d) := by
+  rw [signedToStringInP_eq]; exact ⟨rfl, rfl⟩
+open Monero.Panics in
+/-- `SignedAmount::from_str_in` on any `&str`: beyond the sites of the parser (`C04_no_panic_amount_parser`) the `i64` negation
+`-(piconero as i64)` cannot overflow (its operand is a non-negative value that passed the `> i64::MAX` test) -/
+theorem C04_no_panic_signed_from_str (s : Bytes) (d : Denom) (hu : Utf8 s) :
+    (signedFromStrInP s d).isPanic = false ∧
+    (signedFromStrInP s d).toOption = Out.ofExcept (AmtText.signedFromStrIn s d) := by
+  rw [signedFromStrInP_eq s d hu]; cases AmtText.signedFromStrIn s d <;> exact ⟨rfl, rfl⟩
+/- non-vacuity: the two new kinds of site can fire (negating `i64::MIN`; slicing a `str` inside a two-byte character) -/
+example : (Panics.negI64 "x" (-(2 : Int) ^ 63)).isPanic = true := by decide
+example : (Panics.strSlice "x" [0xc2, 0xb5] 0 1).isPanic = true := by decide
 
 /- non-vacuity: the panic-explicit vocabulary CAN panic (an unguarded slice does), the hash hypothesis is satisfiable,
 and "-1.5" is a `&str` in the sense of `Utf8` -/
